@@ -2,6 +2,9 @@
 //! For details about the concept see [W3C:The Event I/O Processors](doc/W3C_SCXML_2024_07_13/index.html#eventioprocessors).\
 //! This module provides a trait to implement Event-I/O-Processors and contains some implementations.
 
+#[cfg(rfsm_verif)]
+use crate::verif_seams::collections::HashMap;
+#[cfg(not(rfsm_verif))]
 use std::collections::HashMap;
 use std::fmt::Debug;
 #[cfg(rfsm_verif)]
